@@ -26,13 +26,16 @@ CONSTANTS Size,      \* "q" | "t" : bounds of the enumeration
 
 \* ---------- bounds ----------
 Seqs(S, n) == [1..n -> S]
-WX == IF Size = "t" THEN Seqs({1, 2, 3}, 2) \cup Seqs({1, 2, 3}, 3) \cup Seqs({1, 2, 3}, 4)
-      ELSE Seqs({1, 2, 3}, 3) \cup { << 1, 1, 1, 1 >>, << 1, 2, 2, 1 >>, << 3, 1, 2, 1 >>, << 2, 2 >> }
-WY == IF Size = "t" THEN { << 1, 1, 1 >>, << 1, 2, 1 >>, << 2, 1, 3 >>, << 1, 1, 1, 1 >>, << 2, 2 >>, << 3, 1 >> }
-      ELSE { << 1, 1, 1 >>, << 2, 1, 3 >>, << 2, 2 >> }
+WX == IF Size = "t" THEN Seqs({1, 2, 3}, 3) \cup { << 1, 1, 1, 1 >>, << 1, 2, 2, 1 >>, << 3, 1, 2, 1 >>, << 2, 1, 1, 3 >>, << 2, 2 >>, << 1, 3 >> }
+      ELSE Seqs({1, 2}, 3) \cup { << 3, 1, 2 >>, << 1, 3, 1 >>, << 1, 2, 2, 1 >>, << 3, 1, 2, 1 >> }
+WY == IF Size = "t" THEN { << 1, 1, 1 >>, << 1, 2, 1 >>, << 2, 1, 3 >>, << 1, 1, 1, 1 >>, << 2, 2 >> }
+      ELSE { << 1, 2, 1 >>, << 2, 2 >> }
 WZ == IF Size = "t" THEN { << 1, 1 >>, << 2, 1 >>, << 2, 2, 2 >> } ELSE { << 1, 1 >>, << 2, 1 >> }
-Radii == IF Size = "t" THEN {4, 5, 6, 8, 10, 12} ELSE {4, 6, 8, 10}      \* quarter units: 1, 1.25, 1.5, 2, 2.5, 3
-Offs  == {-1, 0, 1}                                                       \* shape centre off the box middle (x only)
+\* radii in quarter units: 1, 1.25, 1.5, 2, 2.5, 3 (ellipsoids of the quick tier: 1, 1.5, 2 only)
+Radii    == IF Size = "t" THEN {4, 5, 6, 8, 10, 12} ELSE {4, 6, 8, 10}
+EllRadii == IF Size = "t" THEN {4, 5, 6, 8, 10} \X {4, 6, 8} \X {4, 6, 8} ELSE {4, 6, 8} \X {4, 8} \X {4, 6}
+\* shape centre off the box middle by a quarter unit (x only); Mirror produces the negative offsets
+Offs  == {0, 1}
 
 Polys == <<
     << << -4, -4 >>, << 4, -4 >>, << 4, 4 >>, << -4, 4 >> >>,                                   \* square, vertices may sit on cell centres
@@ -48,22 +51,21 @@ NoPoly == << >>
 RECURSIVE PSum(_, _)
 PSum(w, k) == IF k = 0 THEN 0 ELSE PSum(w, k - 1) + w[k]
 Edges(w) == [ i \in 1..(Len(w) + 1) |-> PSum(w, i - 1) ]
-SubBoxes(w) == { b \in (1..Len(w)) \X (2..(Len(w) + 1)) : b[2] - b[1] >= 2 }
 FullBox(w) == << 1, Len(w) + 1 >>
+SubBoxes(w) == { b \in (1..Len(w)) \X (2..(Len(w) + 1)) : b[2] - b[1] >= 2 /\ (Len(w) # 3 \/ b = FullBox(w)) }
 
 Shape(k, q, ax, p, o) == [ kind |-> k, q |-> q, axis |-> ax, poly |-> p, off |-> << o, 0, 0 >> ]
-Shapes0 == { Shape("ell", q, 1, NoPoly, o) : q \in Radii \X Radii \X Radii, o \in Offs }
+Shapes0 == { Shape("ell", q, 1, NoPoly, o) : q \in EllRadii, o \in Offs }
       \cup { Shape("cyl", << r, r, r >>, ax, NoPoly, o) : r \in Radii, ax \in 1..3, o \in Offs }
       \cup { Shape("cyl", << 4, 6, 10 >>, ax, NoPoly, 0) : ax \in 1..3 }                        \* elliptic cross-sections
       \cup { Shape("poly", << 4, 4, 4 >>, ax, Polys[p], o) : p \in 1..Len(Polys), ax \in 1..3, o \in Offs }
 
-VARIABLES W,      \* lattice: cell widths per axis
+VARIABLES E,      \* lattice: cell edges per axis (Edges of the chosen widths)
           box,    \* placed box: << lo, hi >> edge indices per axis (cells lo .. hi-1)
           sh,     \* the shape
           mask,   \* set of marked cells, LOCAL indices << i, j, k >> (1-based inside the box)
-          pc,     \* "new" | "done"
-          last    \* the action that produced this state: << "init" >>, << "rasterise" >>, << "grow", a >>, << "mirror", a >>
-vars == << W, box, sh, mask, pc, last >>
+          pc      \* "new" -> "done" (rasterised) -> "grown" | "mirrored" (a second scene derived from the first, rasterised again)
+vars == << E, box, sh, mask, pc >>
 
 \* ---------- the code's computation ----------
 BoxCells(b) == (1..(b[1][2] - b[1][1])) \X (1..(b[2][2] - b[2][1])) \X (1..(b[3][2] - b[3][1]))
@@ -71,33 +73,35 @@ BoxCells(b) == (1..(b[1][2] - b[1][1])) \X (1..(b[2][2] - b[2][1])) \X (1..(b[3]
 LocalSample(e, lo, i) == IF Variant = "corner" THEN Corner4(e, lo + i - 1) - 4 * e[lo]
                          ELSE Centre4(e, lo + i - 1) - 4 * e[lo]
 LocalMid(e, lo, hi) == 2 * (e[hi] - e[lo])                      \* 0.5 * real_shape
-LocalD(w, b, s, c) == [ a \in 1..3 |-> LET e == Edges(w[a]) IN LocalSample(e, b[a][1], c[a]) - (LocalMid(e, b[a][1], b[a][2]) + s.off[a]) ]
-Raster(w, b, s) == { c \in BoxCells(b) : IF Variant = "nonstrict" THEN Closed(s, LocalD(w, b, s, c)) ELSE Strictly(s, LocalD(w, b, s, c)) }
+LocalD(EE, b, s, c) == [ a \in 1..3 |-> LocalSample(EE[a], b[a][1], c[a]) - (LocalMid(EE[a], b[a][1], b[a][2]) + s.off[a]) ]
+Raster(EE, b, s) == { c \in BoxCells(b) : IF Variant = "nonstrict" THEN Closed(s, LocalD(EE, b, s, c)) ELSE Strictly(s, LocalD(EE, b, s, c)) }
 
 \* ---------- the property's words: absolute cell centre vs. analytic shape ----------
-AbsD(w, b, s, c) == [ a \in 1..3 |-> LET e == Edges(w[a]) IN Centre4(e, b[a][1] + c[a] - 1) - (Mid4(e, b[a][1], b[a][2]) + s.off[a]) ]
+AbsD(EE, b, s, c) == [ a \in 1..3 |-> Centre4(EE[a], b[a][1] + c[a] - 1) - (Mid4(EE[a], b[a][1], b[a][2]) + s.off[a]) ]
 
-Init == /\ W \in WX \X WY \X WZ
-        /\ box \in { << bx, FullBox(W[2]), FullBox(W[3]) >> : bx \in SubBoxes(W[1]) }
+Init == /\ \E w \in WX \X WY \X WZ :
+             /\ E = << Edges(w[1]), Edges(w[2]), Edges(w[3]) >>
+             /\ box \in { << bx, FullBox(w[2]), FullBox(w[3]) >> : bx \in SubBoxes(w[1]) }
         /\ sh \in Shapes0
-        /\ mask = {} /\ pc = "new" /\ last = << "init" >>
+        /\ mask = {} /\ pc = "new"
 
 Rasterise ==
     /\ pc = "new"
-    /\ mask' = Raster(W, box, sh)
-    /\ pc' = "done" /\ last' = << "rasterise" >>
-    /\ UNCHANGED << W, box, sh >>
+    /\ mask' = Raster(E, box, sh)
+    /\ pc' = "done"
+    /\ UNCHANGED << E, box, sh >>
 
 Growable(a) == sh.kind = "ell" \/ (sh.kind = "cyl" /\ a # sh.axis)
 Grow(a) ==
     /\ pc = "done" /\ Growable(a)
     /\ \E r \in Radii : /\ r > sh.q[a]
                         /\ sh' = [ sh EXCEPT !.q[a] = r ]
-                        /\ mask' = Raster(W, box, sh')
-    /\ last' = << "grow", a >>
-    /\ UNCHANGED << W, box, pc >>
+                        /\ mask' = Raster(E, box, sh')
+    /\ pc' = "grown"
+    /\ UNCHANGED << E, box >>
 
-MirrorBox(b, n) == << n + 2 - b[2], n + 2 - b[1] >>
+MirrorBox(b, n) == << n + 2 - b[2], n + 2 - b[1] >>            \* n cells, edges 1..n+1
+MirrorEdges(e) == [ i \in 1..Len(e) |-> e[Len(e)] - e[Len(e) + 1 - i] ]
 MirrorShape(s, a) ==
     LET t == Transverse(s.axis) IN
     [ s EXCEPT !.off[a] = -s.off[a],
@@ -105,34 +109,38 @@ MirrorShape(s, a) ==
 MirrorCell(c, b, a) == [ c EXCEPT ![a] = (b[a][2] - b[a][1]) + 1 - c[a] ]
 Mirror(a) ==
     /\ pc = "done"
-    /\ W' = [ W EXCEPT ![a] = Reverse(W[a]) ]
-    /\ box' = [ box EXCEPT ![a] = MirrorBox(box[a], Len(W[a])) ]
+    /\ E' = [ E EXCEPT ![a] = MirrorEdges(E[a]) ]
+    /\ box' = [ box EXCEPT ![a] = MirrorBox(box[a], Len(E[a]) - 1) ]
     /\ sh' = MirrorShape(sh, a)
-    /\ mask' = Raster(W', box', sh')
-    /\ last' = << "mirror", a >>
-    /\ UNCHANGED pc
+    /\ mask' = Raster(E', box', sh')
+    /\ pc' = "mirrored"
 
 Next == Rasterise \/ \E a \in 1..3 : Grow(a) \/ Mirror(a)
 Spec == Init /\ [][Next]_vars
 
 \* ---------- properties ----------
-TypeOK == pc \in {"new", "done"} /\ mask \subseteq BoxCells(box)
+TypeOK == pc \in {"new", "done", "grown", "mirrored"} /\ mask \subseteq BoxCells(box)
 \* C43 main clause
-MaskIsInclusion == pc = "done" =>
-    \A c \in BoxCells(box) : LET d == AbsD(W, box, sh, c) IN
+MaskIsInclusion == pc # "new" =>
+    \A c \in BoxCells(box) : LET d == AbsD(E, box, sh, c) IN
         \/ sh.kind = "poly" /\ OnBoundary(sh, d)                      \* centre exactly on a polygon edge: don't-care
         \/ (c \in mask <=> Strictly(sh, d))
 \* centres exactly on the surface of an ellipsoid / cylinder are not marked
-BoundaryExcluded == pc = "done" /\ sh.kind # "poly" => \A c \in mask : ~OnBoundary(sh, AbsD(W, box, sh, c))
-BoxWidths(a) == [ i \in 1..(box[a][2] - box[a][1]) |-> W[a][box[a][1] + i - 1] ]
+BoundaryExcluded == pc # "new" /\ sh.kind # "poly" => \A c \in mask : ~OnBoundary(sh, AbsD(E, box, sh, c))
+BoxWidths(a) == [ i \in 1..(box[a][2] - box[a][1]) |-> E[a][box[a][1] + i] - E[a][box[a][1] + i - 1] ]
 ShapeSymmetric(a) ==
     /\ sh.off[a] = 0
     /\ sh.kind = "poly" /\ a # sh.axis => PolySymmetric(sh.poly, IF a = Transverse(sh.axis)[1] THEN 1 ELSE 2)
-SymmetricMask == pc = "done" =>
+SymmetricMask == pc # "new" =>
     \A a \in 1..3 : Palindrome(BoxWidths(a)) /\ ShapeSymmetric(a) => \A c \in BoxCells(box) : (c \in mask <=> MirrorCell(c, box, a) \in mask)
-Extruded == pc = "done" /\ sh.kind # "ell" =>
+Extruded == pc # "new" /\ sh.kind # "ell" =>
     \A c \in mask : \A i \in 1..(box[sh.axis][2] - box[sh.axis][1]) : [ c EXCEPT ![sh.axis] = i ] \in mask
-Monotone == [][ last'[1] = "grow" => mask \subseteq mask' ]_vars
-MirrorEquivariant == [][ last'[1] = "mirror" => mask' = { MirrorCell(c, box, last'[2]) : c \in mask } ]_vars
+\* only Grow changes a radius; a Mirror(a) step is recognised by what it does to lattice, box and shape
+Monotone == [][ pc' = "grown" => mask \subseteq mask' ]_vars
+IsMirrorStep(a) == /\ pc' = "mirrored"
+                   /\ E' = [ E EXCEPT ![a] = MirrorEdges(E[a]) ]
+                   /\ box' = [ box EXCEPT ![a] = MirrorBox(box[a], Len(E[a]) - 1) ]
+                   /\ sh' = MirrorShape(sh, a)
+MirrorEquivariant == [][ \A a \in 1..3 : IsMirrorStep(a) => mask' = { MirrorCell(c, box, a) : c \in mask } ]_vars
 \* anti-vacuity witnesses used once by hand (see notes/C43.md): some mask is neither empty nor the full box
 ========================================================================
